@@ -53,6 +53,11 @@ CLAIMED = {
                 note="Not under contract in this build: Ap.__init__ (flatten + stable sort by confidence), _calculate_tp_fp (np.cumsum of TP weights), Map (mean), "
                      "'AP = 1 for a perfect ranking', 'APH <= AP'; those clauses are covered only by the native harness (exhaustive rankings up to length 6, "
                      "bounded). Floats as reals.", ref="5/C04"),
+    "C09": dict(text="get_heading_bev, TPMetricsAph.get_value and get_heading_error are verified, relative to the assumed pyquaternion contract, to compute "
+                     "wrap(-yaw - pi/2), 1 - |wrap(yaw_e - yaw_g)|/pi (both frame branches, in [0,1]) and wrap(yaw_gt - yaw_est) in [-pi, pi]; symmetry, 1 for "
+                     "equal and 0 for opposite headings are real-arithmetic lemmas over that formula.",
+                note="Assumed: yaw_pitch_roll[0] is the ZYX yaw in (-pi, pi], equal for q and -q; transforming by the identity matrix changes nothing. "
+                     "Small roll/pitch coupling is not addressed. Floats as reals.", ref="5/C09"),
 }
 NA_REASON = "check not built yet in this session (planned in DESIGN.md section 5); not claimed"
 ALL = [f"C{n:02d}" for n in range(1, 21)]
